@@ -96,6 +96,9 @@ Proof.
   - intros H. exists i. split; [assumption | apply Nat.eqb_refl].
 Qed.
 
+Lemma nth_firstn_lt {A} : forall k t (l : list A) dd, (t < k)%nat -> nth t (firstn k l) dd = nth t l dd.
+Proof. induction k; intros t [|x l] dd H; cbn; try lia; auto. destruct t; auto. apply IHk. lia. Qed.
+
 (* what a successful call certifies: x > 0 on the opponent's support summing to 1, all own-support actions earn val,
    no other own action earns more *)
 Theorem indiff_spec (P : matQ) (mrows : nat) (own opp : list nat) (x : list Q) : length opp = length own ->
@@ -142,10 +145,7 @@ Proof.
     - change (@nzero Q NumQ) with 0 in Hrow. fold val in Hrow. lra.
     - intros l Hl. rewrite get_mk by lia. destruct (Nat.ltb_spec u k); [|lia]. destruct (Nat.ltb_spec l k); [|lia]. reflexivity. }
   assert (Hnth : forall t, (t < k)%nat -> nth t (firstn k out) 0 = lvget out t).
-  { intros t Ht. unfold LinAlg.vget. change (@nzero Q NumQ) with 0. clear - Ht. revert t Ht out.
-    intros t Ht out. revert t k Ht. induction out as [|z out IH]; intros t k Ht; destruct k; try lia; destruct t; cbn; auto.
-    - now destruct t.
-    - apply IH. lia. }
+  { intros t Ht. unfold LinAlg.vget. change (@nzero Q NumQ) with 0. now apply nth_firstn_lt. }
   assert (Hfin : forall x', x' = firstn k out ->
             (forall i, (i < mrows)%nat -> sumQ k (fun t => lget P i (nth t opp 0%nat) * lvget out t) <= val) ->
             exists val0, length x' = k /\ (forall t, (t < k)%nat -> 0 < nth t x' 0) /\ sumQ k (fun t => nth t x' 0) == 1 /\
@@ -175,4 +175,62 @@ Proof.
     rewrite (fold_left_sumQ (fun j => nmul (lget P i (nth j opp 0%nat)) (lvget out j)) k) in Hf.
     rewrite (sumQ_ext k _ (fun t => lget P i (nth t opp 0%nat) * lvget out t)) in Hf by (intros; apply nmul_Q).
     exact Hf.
+Qed.
+
+(* ------------------------------------------------------------------ support enumeration is sound *)
+Lemma support_pair_nash m n (A Bt : matQ) k s0 s1 a0 a1 :
+  length s0 = k -> NoDup s0 -> (forall i, In i s0 -> (i < m)%nat) ->
+  length s1 = k -> NoDup s1 -> (forall j, In j s1 -> (j < n)%nat) ->
+  indiff_mixed_action A m s0 s1 = Some a1 -> indiff_mixed_action Bt n s1 s0 = Some a0 ->
+  is_nash_fn m n (Af A) (Bf Bt) (lvget (scatter m s0 a0)) (lvget (scatter n s1 a1)).
+Proof.
+  intros L0 N0 R0 L1 N1 R1 E1 E0.
+  destruct (indiff_spec A m s0 s1 a1 (eq_trans L1 (eq_sym L0)) N0 R0 E1) as [v1 [La1 [P1 [S1 [I1 B1]]]]].
+  destruct (indiff_spec Bt n s1 s0 a0 (eq_trans L0 (eq_sym L1)) N1 R1 E0) as [v0 [La0 [P0 [S0 [I0 B0]]]]].
+  rewrite L0 in *. rewrite L1 in *.
+  assert (La0' : length a0 = length s0) by lia. assert (La1' : length a1 = length s1) by lia.
+  set (x := scatter m s0 a0). set (y := scatter n s1 a1).
+  assert (Erow : forall i, row_payoff n (Af A) (lvget y) i == sumQ k (fun t => lget A i (nth t s1 0%nat) * nth t a1 0)).
+  { intros i. unfold row_payoff, y. rewrite (scatter_sum n s1 a1 N1 R1 La1' (fun j => Af A i j)). now rewrite L1. }
+  assert (Ecol : forall j, col_payoff m (Bf Bt) (lvget x) j == sumQ k (fun t => lget Bt j (nth t s0 0%nat) * nth t a0 0)).
+  { intros j. unfold col_payoff, x.
+    rewrite (sumQ_ext m _ (fun i => Bf Bt i j * lvget (scatter m s0 a0) i)) by (intros; ring).
+    rewrite (scatter_sum m s0 a0 N0 R0 La0' (fun i => Bf Bt i j)). now rewrite L0. }
+  assert (U0 : sumQ m (fun i' => lvget x i' * row_payoff n (Af A) (lvget y) i') == v1).
+  { rewrite (sumQ_ext m _ (fun i => row_payoff n (Af A) (lvget y) i * lvget (scatter m s0 a0) i)) by (intros; unfold x; ring).
+    rewrite (scatter_sum m s0 a0 N0 R0 La0' (fun i => row_payoff n (Af A) (lvget y) i)). rewrite L0.
+    rewrite (sumQ_ext k _ (fun t => v1 * nth t a0 0)).
+    - rewrite sumQ_scale_l, S0. ring.
+    - intros t Ht. rewrite Erow, (I1 t Ht). reflexivity. }
+  assert (U1 : sumQ n (fun j' => col_payoff m (Bf Bt) (lvget x) j' * lvget y j') == v0).
+  { unfold y. rewrite (scatter_sum n s1 a1 N1 R1 La1' (fun j => col_payoff m (Bf Bt) (lvget x) j)). rewrite L1.
+    rewrite (sumQ_ext k _ (fun t => v0 * nth t a1 0)).
+    - rewrite sumQ_scale_l, S1. ring.
+    - intros t Ht. rewrite Ecol, (I0 t Ht). reflexivity. }
+  unfold is_nash_fn, prob. repeat split.
+  - intros i Hi. apply scatter_nonneg; auto. intros t Ht. rewrite L0 in Ht. specialize (P0 t Ht). lra.
+  - unfold x. rewrite (sumQ_ext m _ (fun i => 1 * lvget (scatter m s0 a0) i)) by (intros; ring).
+    rewrite (scatter_sum m s0 a0 N0 R0 La0' (fun _ => 1)). rewrite L0.
+    rewrite (sumQ_ext k _ (fun t => nth t a0 0)) by (intros; ring). exact S0.
+  - intros j Hj. apply scatter_nonneg; auto. intros t Ht. rewrite L1 in Ht. specialize (P1 t Ht). lra.
+  - unfold y. rewrite (sumQ_ext n _ (fun j => 1 * lvget (scatter n s1 a1) j)) by (intros; ring).
+    rewrite (scatter_sum n s1 a1 N1 R1 La1' (fun _ => 1)). rewrite L1.
+    rewrite (sumQ_ext k _ (fun t => nth t a1 0)) by (intros; ring). exact S1.
+  - intros i Hi. rewrite U0, Erow. now apply B1.
+  - intros j Hj. rewrite U1, Ecol. now apply B0.
+Qed.
+
+Theorem support_enum_sound m n (A Bt : matQ) x y :
+  In (x, y) (support_enumeration m n A Bt) -> is_nash_fn m n (Af A) (Bf Bt) (lvget x) (lvget y).
+Proof.
+  unfold support_enumeration, support_enumeration_with. intros H.
+  apply in_flat_map in H. destruct H as [k [Hk H]]. apply in_seq in Hk.
+  apply in_flat_map in H. destruct H as [s0 [Hs0 H]].
+  apply in_flat_map in H. destruct H as [s1 [Hs1 H]].
+  destruct (indiff_mixed_action A m s0 s1) as [a1|] eqn:E1; [|destruct H].
+  destruct (indiff_mixed_action Bt n s1 s0) as [a0|] eqn:E0; [|destruct H].
+  destruct H as [H|[]]. injection H as <- <-.
+  destruct (supports_spec m k s0) as [L0 [N0 R0]]; [lia | assumption |].
+  destruct (supports_spec n k s1) as [L1 [N1 R1]]; [lia | assumption |].
+  now apply (support_pair_nash m n A Bt k s0 s1 a0 a1).
 Qed.
